@@ -403,12 +403,22 @@ func checkC16(c *Ctx) {
 	const sameBlock = "---@class CC\n---@field fc number\n---@alias AliasK number\n\n---@type AliasK\nlocal ak = 1\nprint(ak)\n"
 	var sgroups [][]*proto.Case
 	for i, s := range scs {
-		body := "---@class CA\n---@field fa number\n\n---@class CB\n---@field fb number\n\n--" + s.text + "\nlocal subj = nil\n---@type CA\nlocal nb = {}\nlocal unusedloc = 1\nprint(subj, nb.fa)\n" + sameBlock
-		defLine, defCol := 11, 15
+		// every second file has a statement with a trailing comment directly above the annotation line: the comment block
+		// that starts on the next line is a block of its own
+		off := preOff(s.text)
+		pre := ""
+		if off == 1 {
+			pre = "local pre0 = 0 -- a remark\n"
+		}
+		body := "---@class CA\n---@field fa number\n\n---@class CB\n---@field fb number\n\n" + pre + "--" + s.text + "\nlocal subj = nil\n---@type CA\nlocal nb = {}\nlocal unusedloc = 1\nprint(subj, nb.fa, pre0)\n" + sameBlock
+		defLine, defCol := 11+off, 15
 		if s.corrupt {
 			// a malformed line sits inside a comment block: the annotation lines after it in the same block still count
-			body = "---@class CA\n---@field fa number\n\n---@class CB\n---@field fb number\n\n--" + s.text + "\n---@class CZ\n---@field zf number\n---@type CZ\nlocal nb = {}\nlocal unusedloc = 1\nprint(nb.zf)\n" + sameBlock
-			defLine, defCol = 12, 9
+			body = "---@class CA\n---@field fa number\n\n---@class CB\n---@field fb number\n\n" + pre + "--" + s.text + "\n---@class CZ\n---@field zf number\n---@type CZ\nlocal nb = {}\nlocal unusedloc = 1\nprint(nb.zf, pre0)\n" + sameBlock
+			defLine, defCol = 12+off, 9
+		}
+		if off == 0 {
+			body = strings.Replace(body, ", pre0)", ")", 1)
 		}
 		pc := &proto.Case{ID: i + 1, Files: map[string]string{"f.lua": body}, Init: json.RawMessage(allOnLocal)}
 		pc.Steps = append(pc.Steps, openStep("f.lua", body), proto.Step{M: "textDocument/definition", P: posParams("f.lua", defLine, defCol)})
@@ -439,15 +449,16 @@ func checkC16(c *Ctx) {
 		sort.Strings(other)
 		locs, _ := projLocs(res.Root, res.Steps[1].Reply)
 		neighbourOK := len(locs) == 1 && locs[0].SL == 1 // nb.fa -> the ---@field fa line
-		unusedAt := "4@10"
+		off := preOff(s.text)
+		unusedAt := fmt.Sprintf("4@%d", 10+off)
 		if s.corrupt {
-			neighbourOK = len(locs) == 1 && locs[0].SL == 8 // nb.zf -> the ---@field zf line of the same comment block
-			unusedAt = "4@11"
+			neighbourOK = len(locs) == 1 && locs[0].SL == 8+off // nb.zf -> the ---@field zf line of the same comment block
+			unusedAt = fmt.Sprintf("4@%d", 11+off)
 		}
 		var prob []string
 		if s.stray {
 			for _, l := range t18 {
-				if l != 6 {
+				if l != 6+off {
 					prob = append(prob, fmt.Sprintf("a warning for the line with the stray quote is reported on line %d", l))
 				}
 			}
@@ -464,7 +475,7 @@ func checkC16(c *Ctx) {
 				prob = append(prob, "a malformed line yields no annotation warning")
 			}
 			for _, l := range t18 {
-				if l != 6 {
+				if l != 6+off {
 					prob = append(prob, fmt.Sprintf("the warning for the malformed line is reported on line %d", l))
 				}
 			}
@@ -488,3 +499,6 @@ func checkC16(c *Ctx) {
 		sv.dump()
 	}
 }
+
+// preOff: 1 when the file of this line has a statement with a trailing comment directly above the line (a seeded half).
+func preOff(text string) int { return int(hash64(text, 29) % 2) }
